@@ -204,8 +204,20 @@ def hpp_struct(ctx, L):
                 '%s must contain %s' % (name, pieces), text if ok else '')
     u = m.func('_HppDefinitionsTranslator.translate_union')
     us = ws(unparse(u.node))
-    L.check(nows("padding = _Padder().generate_padding(4) + '\\n' if union.alignment == 8 else ''") in nows(us) or
-            re.search(r"generate_padding\(union\.alignment-(model\.)?DISC_SIZE\)", nows(us)) is not None, 'C08.gap-obligation',
+    gp = [c for c in u.walk() if isinstance(c, ast.Call) and isinstance(c.func, ast.Attribute) and c.func.attr == 'generate_padding' and len(c.args) == 1]
+    gap_ok = False
+    if len(gp) == 1:
+        arg = nows(unparse(gp[0].args[0]))
+        # 4 bytes exactly when the union is 8-aligned, or the difference itself (emitted when non-zero)
+        gap_ok = (arg == '4' and P.knows(u, gp[0], 'union.alignment == 8', True, ['self', 'union'])) or \
+            re.fullmatch(r'union\.alignment-(model\.)?DISC_SIZE', arg) is not None
+        # ... and it is what the part template receives as `padding`
+        fmts = [c for c in u.walk() if isinstance(c, ast.Call) and ws(unparse(c.func)) == 'UNION_DEF_PART_TEMPLATE.format']
+        feeds = [k.value for c in fmts for k in c.keywords if k.arg == 'padding']
+        direct = any(any(x is gp[0] for x in ast.walk(v)) for v in feeds)
+        via = [a.targets[0].id for a in u.walk() if isinstance(a, ast.Assign) and isinstance(a.targets[0], ast.Name) and any(x is gp[0] for x in ast.walk(a.value))]
+        gap_ok = gap_ok and (direct or any(isinstance(v, ast.Name) and v.id in via for v in feeds))
+    L.check(gap_ok, 'C08.gap-obligation',
             'translate_union|discriminator-gap', u.site(),
             'between the 4-byte discriminator and the arms of an 8-aligned union a 4-byte manual padding must be emitted', us)
     L.check(inn('return UNION_DEF_TEMPLATE.format(align=union.alignment, name=union.name, parts=_indent(parts, 4))', us) and
